@@ -333,7 +333,7 @@ def inHeap (c : MachCfg) (n : Nat) : Bool := c.heapBase ≤ n && n + 8 ≤ c.hea
 def inStack (c : MachCfg) (n : Nat) : Bool := c.stackLow ≤ n && n + 8 ≤ c.stackTop
 
 /-- Raw load: heap words are always defined (zero-filled), stack words may be undefined. -/
-def loadRaw (c : MachCfg) (s : State) (a : Word) : M (Option Word) :=
+def loadWordRaw (c : MachCfg) (s : State) (a : Word) : M (Option Word) :=
   let n := a.toNat
   if n % 8 ≠ 0 then .error s!"unaligned {n}"
   else if inHeap c n then .ok (some (s.heapMem.getD n 0))
@@ -341,15 +341,15 @@ def loadRaw (c : MachCfg) (s : State) (a : Word) : M (Option Word) :=
   else .error s!"oob {n}"
 
 /-- Load by an instruction whose behaviour depends on the value: must be defined. -/
-def load (c : MachCfg) (s : State) (a : Word) : M Word :=
-  match loadRaw c s a with
+def loadWord (c : MachCfg) (s : State) (a : Word) : M Word :=
+  match loadWordRaw c s a with
   | .ok (some v) => .ok v
   | .ok none => .error s!"read-undefined [{a.toNat}]"
   | .error e => .error e
 
 /-- Raw store: an undefined value may be stored to the stack (the word becomes undefined) but not
 to the heap (heap words carry no definedness). -/
-def storeRaw (c : MachCfg) (s : State) (a : Word) (v : Option Word) : M State :=
+def storeWordRaw (c : MachCfg) (s : State) (a : Word) (v : Option Word) : M State :=
   let n := a.toNat
   if n % 8 ≠ 0 then .error s!"unaligned {n}"
   else if inHeap c n then
@@ -363,13 +363,11 @@ def storeRaw (c : MachCfg) (s : State) (a : Word) (v : Option Word) : M State :=
                              | none => s.stackMem.erase n }
   else .error s!"oob {n}"
 
-def store (c : MachCfg) (s : State) (a : Word) (v : Word) : M State := storeRaw c s a (some v)
+def storeWord (c : MachCfg) (s : State) (a : Word) (v : Word) : M State := storeWordRaw c s a (some v)
 
 /-- Immediates and displacements are sign-extended to 64 bits.  Every form except `mov r64, imm64`
-encodes them in 32 bits: outside that range the instruction does not exist. -/
-def fitsI32 (i : Int) : Bool := decide (-2147483648 ≤ i) && decide (i ≤ 2147483647)
-def fitsI64 (i : Int) : Bool := decide (-9223372036854775808 ≤ i) && decide (i ≤ 9223372036854775807)
-
+encodes them in 32 bits: outside that range the instruction does not exist.
+(`fitsI32` / `fitsI64` are defined in Instr.lean, shared with the backend model.) -/
 def imm32 (i : Int) : M Word :=
   if fitsI32 i then .ok (BitVec.ofInt 64 i) else .error s!"imm-out-of-range {i}"
 
@@ -388,14 +386,14 @@ inductive Loc where
 def readLoc (c : MachCfg) (s : State) : Loc → M Word
   | .r r => rd s r
   | .m b d => match ea s b d with
-    | .ok a => load c s a
+    | .ok a => loadWord c s a
     | .error e => .error e
 
 def writeLoc (c : MachCfg) (s : State) (l : Loc) (v : Word) : M State :=
   match l with
   | .r r => wr s r v
   | .m b d => match ea s b d with
-    | .ok a => store c s a v
+    | .ok a => storeWord c s a v
     | .error e => .error e
 
 /-- Source operand: location or 32-bit immediate. -/
@@ -511,12 +509,12 @@ def execCode (c : MachCfg) (labelAddr : String → Option Nat) (code : Code) (s 
     match rdRaw s r, ea s r1 i with
     | .error e, _ => .error e
     | _, .error e => .error e
-    | .ok v, .ok a => seqNext (storeRaw c s a v)
+    | .ok v, .ok a => seqNext (storeWordRaw c s a v)
   | .MOVL r r1 i =>
     match ea s r1 i with
     | .error e => .error e
     | .ok a =>
-      match loadRaw c s a with
+      match loadWordRaw c s a with
       | .error e => .error e
       | .ok v => seqNext (wrRaw s r v)
   | .MOVI r i =>
@@ -542,14 +540,14 @@ def execCode (c : MachCfg) (labelAddr : String → Option Nat) (code : Code) (s 
     | .error e, _ => .error e
     | _, .error e => .error e
     | .ok v, .ok sp =>
-      match storeRaw c s (sp - 8) v with
+      match storeWordRaw c s (sp - 8) v with
       | .error e => .error e
       | .ok s1 => seqNext (wr s1 0 (sp - 8))
   | .POP r =>
     match rd s 0 with
     | .error e => .error e
     | .ok sp =>
-      match loadRaw c s sp with
+      match loadWordRaw c s sp with
       | .error e => .error e
       | .ok v =>
         match wr s 0 (sp + 8) with
@@ -617,7 +615,7 @@ def retCheck (c : MachCfg) (s : State) : Except Res Word :=
   match rd s 0 with
   | .error e => .error (.fault e 0)
   | .ok sp =>
-    match load c s sp with
+    match loadWord c s sp with
     | .error e => .error (.fault e 0)
     | .ok w =>
       if w ≠ retSentinel then .error (.fault "ret-to-non-sentinel" 0)
